@@ -49,6 +49,7 @@ let outcome_s = function
   | OK -> "ok"
   | Err ENotFound -> "notfound" | Err ECompile -> "compile" | Err EBoom -> "boom"
   | Err ECannotImport -> "cannotimport" | Err EAttr -> "attr" | Err ENotModule -> "notmodule" | Err EUnbound -> "UNBOUND"
+  | Err ECycle -> "cycle"
   | Panic -> "panic-depth" | Fuel -> "FUEL"
 
 let obs_s = function
@@ -84,13 +85,13 @@ let do_case () =
   let fuel = nat_of_int 200000 in
   let (o, s) = run_main fuel files default_exts main in
   let evs = List.rev_map event_s s.trace in
-  let names = uniq (List.map fst s.starts) in
+  let names = uniq (List.map fst s.starts @ List.map fst s.cycles) in
   let counters = List.map (fun n ->
-      Printf.sprintf "%s:%d:%d:%d:%d:%d" (hex n) (int_of_nat (get n s.starts)) (int_of_nat (get n s.done_nr))
-        (int_of_nat (get n s.done_r)) (int_of_nat (get n s.fail_nr)) (int_of_nat (get n s.fail_r))) names in
+      Printf.sprintf "%s:%d:%d:%d:%d" (hex n) (int_of_nat (get n s.starts)) (int_of_nat (get n s.dones))
+        (int_of_nat (get n s.fails)) (int_of_nat (get n s.cycles))) names in
   let acc = (List.for_all action_accepted main) && tree_accepted files in
-  Printf.printf "%s | %s | %s | acc=%d fuzzy=%d\n" (outcome_s o) (String.concat " " evs) (String.concat " " counters)
-    (if acc then 1 else 0) (if s.fuzzy then 1 else 0)
+  Printf.printf "%s | %s | %s | acc=%d\n" (outcome_s o) (String.concat " " evs) (String.concat " " counters)
+    (if acc then 1 else 0)
 
 let do_spelling () =
   let root = next_hex () in
